@@ -79,6 +79,27 @@ def gen_random(rnd, n):
                 out.append(b"\x81" + enc)
                 out.append(b"\xa1" + enc + b"\x00" if mt == 3 else b"\xa1\x00" + enc)
                 out.append(b"\xc1" + enc)
+    # ill-formed chunk sequences of indefinite-length strings (RFC 8949 3.2.3: chunks are definite-length strings of the same major type)
+    chunks_ok = {2: [b"\x41\x01", b"\x40", b"\x42\x02\x03"], 3: [b"\x61a", b"\x60", b"\x62\xc3\xa9"]}
+    for mt in (2, 3):
+        other = 3 if mt == 2 else 2
+        ib = bytes([mt << 5 | 31])
+        bad_chunks = [ib + chunks_ok[mt][0] + b"\xff",                 # nested indefinite string of the same type
+                      ib + b"\xff",                                      # nested empty indefinite string
+                      chunks_ok[other][0],                                # chunk of the other string type
+                      bytes([other << 5 | 31]) + chunks_ok[other][0] + b"\xff",
+                      b"\x01", b"\x20", b"\x80", b"\xa0", b"\xf6", b"\xc1" + chunks_ok[mt][0], b"\x9f\xff", b"\xf9\x3c\x00"]
+        for bc in bad_chunks:
+            for pre in (b"", chunks_ok[mt][0], chunks_ok[mt][1] + chunks_ok[mt][2]):
+                for post in (b"", chunks_ok[mt][0]):
+                    enc = ib + pre + bc + post + b"\xff"
+                    out.append(enc)
+                    out.append(b"\x81" + enc)
+                    out.append(b"\xa1\x00" + enc)
+        # break in the wrong place, missing break
+        out.append(ib + chunks_ok[mt][0])
+        out.append(ib + chunks_ok[mt][0] + b"\xff\xff")
+        out.append(b"\x82" + ib + chunks_ok[mt][0] + b"\xff")
     # hostile heads: announced lengths far beyond the input
     for mt in (2, 3, 4, 5):
         for w, val in ((1, 200), (2, 60000), (4, 2**32 - 1), (8, 2**40), (8, 2**64 - 1), (4, 2**28)):
